@@ -5,6 +5,7 @@ go 1.22.4
 require (
 	github.com/CycloneDX/cyclonedx-go v0.9.0
 	github.com/protobom/protobom v0.0.0
+	github.com/sirupsen/logrus v1.9.3
 	github.com/spdx/tools-golang v0.5.5
 	golang.org/x/tools v0.21.0
 	google.golang.org/protobuf v1.34.2
@@ -16,7 +17,6 @@ require (
 	github.com/common-nighthawk/go-figure v0.0.0-20210622060536-734e95fb86be // indirect
 	github.com/google/go-cmp v0.6.0 // indirect
 	github.com/google/uuid v1.6.0 // indirect
-	github.com/sirupsen/logrus v1.9.3 // indirect
 	github.com/spf13/cobra v1.8.0 // indirect
 	github.com/spf13/pflag v1.0.5 // indirect
 	golang.org/x/mod v0.17.0 // indirect
